@@ -118,6 +118,49 @@ func HarnessC02Rsp(shape, hs, slow int) {
 	verifrt.Cover("end", true)
 }
 
+// HarnessC02Slow: two GET replies to a client that reads slowly. The static part of the outbound
+// buffer holds `wcap` bytes, so the backlog spills into the overflow list; the socket accepts a
+// solver-chosen number of bytes at each step. Whatever the pattern of partial writes, the client's
+// byte stream is reply1 followed by reply2, complete and in order.
+func HarnessC02Slow(wcap int) {
+	o := core.VerifDefaultOptions()
+	o.WriteBufferCap = wcap
+	w, _ := verifWorld2(o)
+	c := w.NewClient("10.0.0.1:5000")
+	k1 := []byte{'{', 'b', '}', verifrt.Byte("key")}
+	k2 := []byte{'{', 'b', '}', verifrt.Byte("key")}
+	w.Feed(c, append(core.VerifEncode([]byte("get"), k1), core.VerifEncode([]byte("get"), k2)...))
+	w.RunTasks()
+	verifrt.Assert(len(w.Servers) == 1, "one_backend")
+	s := w.Servers[0]
+	r1 := bulk(verifrt.Bytes("v1", 9))
+	r2 := bulk(verifrt.Bytes("v2", 3))
+	// the socket takes a0 bytes of the first reply, the rest is buffered (static part, then list)
+	a0 := verifrt.Concretize(verifrt.Int("accept0", 0, 3))
+	verifrt.LimitWrites(c.Fd, a0)
+	w.Feed(s, r1)
+	// the reader catches up a little: a1 bytes are drained on a writable event
+	a1 := verifrt.Concretize(verifrt.Int("accept1", 0, 6))
+	verifrt.LimitWrites(c.Fd, a1)
+	w.Writable(c)
+	// the second reply arrives while part of the first is still queued
+	verifrt.LimitWrites(c.Fd, verifrt.Concretize(verifrt.Int("accept2", 0, 2)))
+	w.Feed(s, r2)
+	for i := 0; i < 12 && c.OutboundBuffered() > 0; i++ {
+		verifrt.LimitWrites(c.Fd, 3)
+		w.Writable(c)
+	}
+	verifrt.LimitWrites(c.Fd, -1)
+	w.Writable(c)
+	out := w.Sent(c)
+	want := append(append([]byte{}, r1...), r2...)
+	verifrt.ObserveBytes("client", out)
+	verifrt.Assert(len(out) == len(want) && isPrefix(out, want), "slow_reader_gets_both_replies_complete_in_order")
+	verifrt.Assert(c.OutboundBuffered() == 0 && c.Opened(), "backlog_drained_connection_open")
+	verifrt.Cover("end", true)
+}
+
 func init() {
+	verifrt.Register("HarnessC02Slow", func(p []int64) { HarnessC02Slow(int(p[0])) })
 	verifrt.Register("HarnessC02Rsp", func(p []int64) { HarnessC02Rsp(int(p[0]), int(p[1]), int(p[2])) })
 }
